@@ -4,7 +4,10 @@
 enum { A16_FAULT_NONE = 0, A16_FAULT_SHORT_READ, A16_FAULT_FLIP, A16_FAULT_DROP, A16_FAULT_DUP, A16_FAULT_NUL, A16_FAULT_OPEN, A16_RAW, A16_FAULT_TRUNC };
 extern "C" {
 const unsigned char *a16_bytes(size_t *n);   // the bytes of the file as stored on the simulated device
-int a16_fault(long *arg);                    // device fault of this run
+int a16_fault(long *arg);
+int a16_pre_reads(void);                     // truncated copies of the document read first, in the same process
+long a16_pre_cut(int i);
+void a16_pre_outcome(int kind);                    // device fault of this run
 void a16_outcome(int kind, const char *canon_or_what);  // 0 document, 1 runtime_error, 2 other std::exception, 3 unknown exception
 void a16_run();
 }
